@@ -18,7 +18,7 @@ def JR (X : List Nat) (s s' : State) : Prop := J X s → J X s'
 theorem JR.refl (X : List Nat) (s : State) : JR X s s := id
 theorem JR.trans {X : List Nat} {a b c : State} (h1 : JR X a b) (h2 : JR X b c) : JR X a c := fun h => h2 (h1 h)
 theorem JR.frame {X : List Nat} {s s' : State} (e1 : s'.threads = s.threads) (e2 : s'.insts = s.insts)
-    (e3 : s'.nextInst = s.nextInst) : JR X s s' := fun h => h.congr e1 e2 e3
+    (e3 : s'.nextInst = s.nextInst) (e4 : s'.events = s.events := by rfl) : JR X s s' := fun h => h.congr e1 e2 e3 e4
 theorem JR.fuel (X : List Nat) (s : State) : JR X s { s with outOfFuel := true } := JR.frame rfl rfl rfl
 
 theorem JR.setTh (X : List Nat) (s : State) (t : Nat) (f : Th → Th)
@@ -48,7 +48,46 @@ theorem stopStep_jr {cw : State → Nat → State} (hcw : JQ1 cw) (X : List Nat)
     · exact (JR.setTh X s t (fun th => { th with ts := .running })).trans (hcw X _ _ (h.setTh t _))
     · exact JR.refl X s
 
-theorem cancelEvents_jr (X : List Nat) (s : State) (t : Nat) : JR X s (cancelEvents s t) := JR.frame rfl rfl rfl
+theorem cancelEvents_jr (X : List Nat) (s : State) (t : Nat) : JR X s (cancelEvents s t) :=
+  fun h => h.eventsSub rfl rfl rfl (fun ev he => (List.mem_filter.1 he).1)
+
+theorem cancelEvents_noEv (s : State) (t : Nat) : NoEv (cancelEvents s t) t := by
+  intro ev he hk
+  have := (List.mem_filter.1 he).2
+  simp [hk] at this
+
+/-- `CancelPendingEvents` only touches the queue, `NotifyDelete` never reads it -/
+theorem cancelEvents_notifyDelete (s : State) (t : Nat) :
+    cancelEvents (notifyDelete s t) t = notifyDelete (cancelEvents s t) t := by
+  unfold notifyDelete
+  have hth : (cancelEvents s t).th? t = s.th? t := rfl
+  rw [hth]
+  cases hf : s.th? t with
+  | none => rfl
+  | some th =>
+    simp only
+    have hri : ∀ (S : State) (i : Nat), cancelEvents (removeFromInst S t i) t = removeFromInst (cancelEvents S t) t i := by
+      intro S i
+      rw [removeFromInst_frame S, removeFromInst_frame (cancelEvents S t), removeFromInst_insts, removeFromInst_insts]
+      rfl
+    by_cases ha : th.attached = true
+    · simp only [ha, if_true]
+      by_cases hv : (th.vm == VS.idling) = true
+      · simp only [hv, if_true]
+        have h1 := hri (s.setTh t fun th => { th with vm := .destroyed }) th.inst
+        have h2 : (cancelEvents s t).setTh t (fun th => { th with vm := VS.destroyed }) =
+            cancelEvents (s.setTh t fun th => { th with vm := .destroyed }) t := rfl
+        rw [h2, ← h1]; rfl
+      · simp only [hv]
+        have h1 := hri (s.setTh t fun th => { th with vm := .destroyed }) th.inst
+        have h2 : (cancelEvents s t).setTh t (fun th => { th with vm := VS.destroyed }) =
+            cancelEvents (s.setTh t fun th => { th with vm := .destroyed }) t := rfl
+        rw [h2, ← h1]
+        simp only [Bool.false_eq_true, if_false]
+    · simp only [ha]
+      by_cases hv : (th.vm == VS.idling) = true
+      · simp only [hv, if_true]; rfl
+      · simp only [hv]; rfl
 
 theorem notifyLoop_jr {sn : State → Nat → State} (hn : N1 sn) (hsn : JQ1 sn) (X : List Nat) {s : State}
     (h : NInv s) (stopped : List Nat) : JR X s (notifyLoop sn s stopped) := by
@@ -253,8 +292,11 @@ theorem deleteThread_jr_succ {fuel : Nat} (ih : JQAll fuel) : JQ1 (deleteThread 
       have j1 := j0.trans (stopStep_jr ih.cwa X h0 t th)
       have v1 : NoVM _ t := v0.of_q (stopStep_q q.cwa [] h0 t th)
       have h2 := notifyDelete_ninv h1 t
-      have j2 : JR X s (notifyDelete (stopStep (cancelWaitingAll fuel) (s.setTh t fun th => { th with hasVM := false }) t th) t) :=
-        fun hj => (j1 hj).ndel v1
+      have j3 : JR X s (cancelEvents (notifyDelete (stopStep (cancelWaitingAll fuel)
+          (s.setTh t fun th => { th with hasVM := false }) t th) t) t) := by
+        intro hj
+        rw [cancelEvents_notifyDelete]
+        exact (cancelEvents_jr X _ t (j1 hj)).ndel (v1.of_q (cancelEvents_q [] _ t)) (cancelEvents_noEv _ t)
       have g2 : Gone (notifyDelete (stopStep (cancelWaitingAll fuel) (s.setTh t fun th => { th with hasVM := false }) t th) t) t := by
         intro th' hf2
         have hv := (v1.of_q (notifyDelete_q [] _ t)) th' hf2
@@ -295,7 +337,6 @@ theorem deleteThread_jr_succ {fuel : Nat} (ih : JQAll fuel) : JQ1 (deleteThread 
           · exact hbase _ hd2 th' hf2
           · exact hd2 th' hf2
       have h3 := cancelEvents_ninv h2 t
-      have j3 := j2.trans (cancelEvents_jr X _ t)
       have g3 : Gone (cancelEvents (notifyDelete (stopStep (cancelWaitingAll fuel)
           (s.setTh t fun th => { th with hasVM := false }) t th) t) t) t := g2
       have h4 := n.ur _ t nameDelete h3
